@@ -118,7 +118,7 @@ func buildCliDirs(root string, seed int64) (map[string]string, map[string]string
 	base := world.GenOpts{MaxNS: 2, MaxWl: 4, MaxNP: 3, KindsFree: true}
 	good := mk("good", base, 2)
 	focus := map[string]string{"present": good.Workloads[0].Name, "nsname": good.Workloads[0].NS + "/" + good.Workloads[0].Name, "absent": "nosuch", "": ""}
-	for _, k := range []string{"junk", "severe", "fatal"} {
+	for _, k := range []string{"junk", "severe", "fatal", "schema"} {
 		d := filepath.Join(root, k)
 		conc := world.NewConc(good, 7)
 		if err := conc.WriteWorld(d, good, 11); err != nil {
@@ -132,6 +132,12 @@ func buildCliDirs(root string, seed int64) (map[string]string, map[string]string
 	os.WriteFile(filepath.Join(dirs["junk"], "empty.yaml"), []byte(""), 0o644)
 	os.WriteFile(filepath.Join(dirs["severe"], "malformed.yaml"), []byte(malformedDoc), 0o644)
 	os.WriteFile(filepath.Join(dirs["severe"], "broken.yaml"), []byte(brokenYaml), 0o644)
+	// "schema": the only problem is a document that fails schema conversion (severe, not fatal, not a scanner error)
+	os.WriteFile(filepath.Join(dirs["schema"], "malformed.yaml"), []byte(malformedDoc), 0o644)
+	// "nowl": no workload at all, only a policy (severe "no workloads" entry, library returns no error)
+	os.MkdirAll(filepath.Join(root, "nowl"), 0o755)
+	dirs["nowl"] = filepath.Join(root, "nowl")
+	os.WriteFile(filepath.Join(dirs["nowl"], "np.yaml"), []byte(dupNP), 0o644)
 	os.WriteFile(filepath.Join(dirs["fatal"], "dup1.yaml"), []byte(dupNP), 0o644)
 	os.WriteFile(filepath.Join(dirs["fatal"], "dup2.yaml"), []byte(dupNP), 0o644)
 	os.MkdirAll(filepath.Join(root, "empty"), 0o755)
